@@ -18,6 +18,7 @@ import AcVerif.Cost
 import AcVerif.Compiler
 import AcVerif.DfaModel
 import AcVerif.ContigModel
+import AcVerif.DenseModel
 /-!
 # Line-protocol driver: the model's answer to each request
 -/
@@ -579,7 +580,10 @@ def answerCertL1c (r : Req) : String :=
       let n := T.states.size
       let fold := r.flag "fold"
       let N := CNfa.compile k fold P
-      let A := N.toAut k P T.hasPre
+      -- transitions are read through `follow_transition` (dense rows for states above the dense depth)
+      let rows := denseRows N (r.natD "dd" 3)
+      let A0 := N.toAut k P T.hasPre
+      let A : Aut Nat UInt8 := { A0 with next := fun anch sid b => (nextStateD N rows anch (N.size + 1) sid b 0).1 }
       let first := r.flag "first"
       let modes := r.getD "modes" "01"
       let res := ([false, true].filter fun a => modes.contains (if a then '1' else '0')).map fun anch =>
@@ -590,7 +594,7 @@ def answerCertL1c (r : Req) : String :=
       let failsOk := r.getD "failsmode" "" != "model" || (List.range n).all fun b =>
         match f[b]?, T.states[b]? with
         | some (some a), some st =>
-          allBytes.all fun c => st.fails.getD c.toNat 0 == (CNfa.nextState N false (N.size + 1) a c 0).2
+          allBytes.all fun c => st.fails.getD c.toNat 0 == (nextStateD N rows false (N.size + 1) a c 0).2
         | _, _ => true
       if T.contractOk && failsOk && res.all (·.2.1) then s!"cert-ok states={n} l1c_states={N.size}"
       else
